@@ -136,7 +136,7 @@ int main(int argc, char** argv) {
   // cross-type conversions (the tracer cannot follow a change of element type): vec<L,B>(vec<L,A>), mat<C,R,B>(mat<C,R,A>) and mixed-type
   // argument lists are static_cast per component.  Exploration on the real code; values are small integers plus a fraction, cast through A first.
   add_prop("p_convert", 4, 0.0, 0.0, [](auto const* x) { using T = TY(x); int bad = 0;
-    double v[4]; for (int i = 0; i < 4; ++i) v[i] = std::fabs((double)x[i]) * 40.0 + 0.25 * i;       // 0 .. 81: inside every target type, non-negative
+    double v[4]; for (int i = 0; i < 4; ++i) v[i] = std::fmod(std::fabs((double)x[i]) * 40.0, 100.0) + 0.25 * i;       // 0 .. 101: inside every target type (also int8), non-negative
     auto each_pair = [&](auto a0, auto b0) { using A = decltype(a0); using B = decltype(b0);
       A s[4]; for (int i = 0; i < 4; ++i) s[i] = static_cast<A>(v[i]);
       glm::vec<4, A> a4(s[0], s[1], s[2], s[3]); glm::vec<3, A> a3(s[0], s[1], s[2]); glm::vec<2, A> a2(s[0], s[1]); glm::vec<1, A> a1(s[0]);
